@@ -65,6 +65,9 @@ def gen_params(rng, model):
     if rng.random() < 0.3:
         pools = {"A": ["Al", "Bo", "Cy"], "B": ["Charlotte", "Dominique St-Pierre", "Ev"], "C": ["x", "Maximilian", "Zoë Q"]}
         slates = {b: pools[b][:s] for b, s in zip(blocs, sizes)}
+    if rng.random() < 0.12:
+        # a ticket named after its lead candidate: the first candidate of every slate carries the slate's name
+        slates = {b: [b] + list(v[1:]) for b, v in slates.items()}
     p0 = rng.choice([0.3, 0.4, 0.5, 0.6, 0.7])
     if nb == 1:
         props = {blocs[0]: 1.0}
